@@ -62,6 +62,8 @@ class PacketParser:
         for parser in self.parsers:
             parser_fields = [f for f in decompressed_fields if parser.name in f[0]]
             unparsed_fields.extend(parser.unparse(parser_fields))
+        # fields of no header parser of this stack (the payload, headers reached by prediction) follow unchanged
+        unparsed_fields.extend(f for f in decompressed_fields if not any(parser.name in f[0] for parser in self.parsers))
         return unparsed_fields
 
 
